@@ -548,10 +548,7 @@ fn mut_strategy() -> impl Strategy<Value = Mut> {
 /// attacker-sized allocation shows up as a crash of that child instead of exhausting the host
 fn parser_batch(inputs: &[Vec<u8>], optsel: u8) -> Vec<Result<u8, String>> {
     let out = isolated(120, |w| {
-        unsafe {
-            let lim = libc::rlimit { rlim_cur: 3 << 30, rlim_max: 3 << 30 };
-            libc::setrlimit(libc::RLIMIT_AS, &lim);
-        }
+        limit_address_space(3 << 30);
         let o = opts(optsel & 1 == 1, optsel & 2 == 2, optsel & 4 == 0);
         for (i, d) in inputs.iter().enumerate() {
             progress(&json!({"sig": "C18/parser/crash", "input_hex": hex(d), "options": optsel}).to_string());
@@ -581,6 +578,11 @@ pub const HUGE: u64 = 1 << 27;
 /// number in [2^27, 2^64) (a representable element count far beyond the input size; counts are
 /// declared in the header and, for AIGER justice properties, in the body)
 pub fn huge_count(d: &[u8]) -> bool {
+    huge_count_at(d, HUGE)
+}
+/// same with another lower bound (the fuzz targets run under libFuzzer's 2 GB malloc limit and
+/// therefore exclude declared counts from 2^22 on)
+pub fn huge_count_at(d: &[u8], limit: u64) -> bool {
     let head: Vec<u8> = d.to_vec();
     let mut cur: u128 = 0;
     let mut in_num = false;
@@ -589,7 +591,7 @@ pub fn huge_count(d: &[u8]) -> bool {
             cur = (cur * 10 + (b - b'0') as u128).min(u128::MAX / 16);
             in_num = true;
         } else {
-            if in_num && cur >= HUGE as u128 && cur <= u64::MAX as u128 {
+            if in_num && cur >= limit as u128 && cur <= u64::MAX as u128 {
                 return true;
             }
             cur = 0;
